@@ -613,7 +613,7 @@ impl Drop for LocalParentGuard {
         #[cfg(feature = "enable")]
         if let Some(inner) = self.inner.take() {
             let (spans, token) = inner.collector.collect_spans_and_token();
-            debug_assert!(token.is_some());
+            // There is no token when the span stack was full and the scope was never registered.
             if let Some(token) = token {
                 inner
                     .collect
